@@ -124,7 +124,7 @@ func marshal(s reflect.Value, bytes []byte) error {
 							}
 
 						case tUint16:
-							binary.LittleEndian.PutUint16(bytes[offset:offset+4], uint16(f.Uint()))
+							binary.LittleEndian.PutUint16(bytes[offset:offset+2], uint16(f.Uint()))
 
 						case tUint32:
 							binary.LittleEndian.PutUint32(bytes[offset:offset+4], uint32(f.Uint()))
